@@ -405,9 +405,17 @@ def g_twopaths(spec, r):
         yield "twopaths", r.choice([b"copy ", b""]) + first + b" " + second + r.choice([b"", b" " + first]), None
 
 
+def g_bom(spec, r):
+    """Whole inputs that are UTF-16 text with a byte order mark, at depth limits around zero."""
+    while True:
+        text = r.choice(["cmd /c calc.exe", "http://evil.example.com/a.exe and 1.2.3.4", "hello world hello", "x"]) * r.randint(1, 3)
+        bom, codec = r.choice([(b"\xff\xfe", "utf-16-le"), (b"\xfe\xff", "utf-16-be")])
+        yield "bom", bom + text.encode(codec) + r.choice([b"", b"\x00"]), r.choice([-1, 0, 0, 1, 2, None])
+
+
 GENERATORS = {
     "skel": g_skel, "xor": g_xor, "cmd": g_cmd, "pe": g_pe, "xorbytes": g_xorbytes, "matryoshka": g_matryoshka,
-    "nesting": g_nesting, "seedmut": g_seedmut, "soup": g_soup, "large": g_large, "repeat": g_repeat, "url": g_url, "ioc": g_ioc, "layer": g_layer, "ctxdec": g_ctxdec, "nest": g_nest, "plainnest": g_plainnest, "repeatunit": g_repeatunit, "echo": g_echo, "expand": g_expand, "overlap": g_overlap, "twopaths": g_twopaths,
+    "nesting": g_nesting, "seedmut": g_seedmut, "soup": g_soup, "large": g_large, "repeat": g_repeat, "url": g_url, "ioc": g_ioc, "layer": g_layer, "ctxdec": g_ctxdec, "nest": g_nest, "plainnest": g_plainnest, "repeatunit": g_repeatunit, "echo": g_echo, "expand": g_expand, "overlap": g_overlap, "twopaths": g_twopaths, "bom": g_bom,
 }
 
 
